@@ -125,6 +125,9 @@ func RunWorker(c *Check, tier string, shard, nshards int, seed int64, budget tim
 		if p.Serial && shard != 0 {
 			pr.Complete = true
 		} else {
+			if p.Serial {
+				w.NShards, w.Shard = 1, 0
+			}
 			func() {
 				defer func() {
 					if r := recover(); r != nil && w.EngineErr == "" {
@@ -133,6 +136,7 @@ func RunWorker(c *Check, tier string, shard, nshards int, seed int64, budget tim
 				}()
 				p.Run(w)
 			}()
+			w.NShards, w.Shard = nshards, shard
 		}
 		used := time.Since(w.start)
 		pr.WallS = used.Seconds()
